@@ -28,6 +28,15 @@ def scenarios(rng, tier):
                 if which == 'add': s.op('st_add 1', m2, g2, rng.randrange(4))
                 else: s.op('st_%s 1' % which, m2, g2)
             else: s.op('adv', rng.choice([0, 1, 999, 1000, 5000, 30000, 59000, 60000, 61000, 200000] + ([32767000, 32768000, 32769000, 65536000 + 30000, 65595000, 2**31 * 1000] if k % 4 == 0 else [])))
+    # expiry exactly at the second boundary with ticks closer together than a second (the clock has millisecond resolution)
+    for k in range(12 if tier == 'quick' else 300):
+        s.start('edge_%d' % k); s.op('mk 0'); s.op('adv', 1000 * rng.randrange(5, 50) + rng.choice([0, 3, 500]))
+        m1, m2 = hx(mac(1)), hx(mac(2))
+        s.op('st_add 0', m1, 1, 1); s.op('adv', rng.choice([0, 400, 1000, 2500])); s.op('st_add 0', m2, 1, 1)
+        s.op('adv', 57000)
+        for i in range(rng.choice([30, 60])):
+            s.op('adv', rng.choice([20, 100, 150, 200, 300, 600, 990])); s.op('tick 0')
+            if rng.random() < 0.1: s.op('st_find 0', m1, 1)
     return [(s.text(), {})]
 def project(blk, name, meta):
     if blk.op.startswith(('st_', 'tick', 'mk')): return project_keys(blk, ['ret', 'cnt', 'allc', 'empty', 'tbl'])
